@@ -16,14 +16,20 @@ CFG = {
                   "accumScalar and only tested to be so (every run: three-way differential on all lengths of the tier + guard pages); 'never modifies the bytes' has no "
                   "theorem beyond the model being a pure function (tested: read-only mapping + before/after comparison); alignment/capacity independence is by "
                   "construction in the model (a byte list has neither) and tested on the real code. The Spec is a hand transcription of XXH3 validated against "
-                  "internal/xxh3_raw and digests printed by the Go code, not against the C reference (not available offline). Slice lengths are exact integers "
-                  "(Go int < 2^63): uintptr wrap-around of index arithmetic is not modelled. consts.go naming quirk (no functional effect): xsecret32_000/004 and "
+                  "internal/xxh3_raw and digests printed by the Go code, not against the C reference (not available offline). Go ints are modelled as UNBOUNDED Z: the small/large dispatch "
+                  "`len(data) > 16`, the length classes and all index arithmetic are exact in the model, so an int/uint32 truncation or a sign trick that misroutes "
+                  "very long inputs is invisible to the theorems and to the Coq-evaluated cases (which stop at ~20 KB). What ties the large-length behaviour to the "
+                  "property is the harness stream 'len-class >2GiB/sparse' (every run, child process): sparse MAP_NORESERVE mappings of 2^31+17 and 2^32+17 bytes "
+                  "(thorough: also 2^31+16, 2^31+1MiB, 2^32+16), zero pages plus a few non-zero bytes at the start, stripe/block boundaries, around 2^31 and at the end, "
+                  "hashed by all three back ends through Hash/HashString/Hash128/Hash128String and judged (kind 2) by back-end/entry-point agreement, equality with "
+                  "internal/xxh3_raw on the same memory, and Hash = low64(Hash128) (theorem C16_long_low64: a Spec identity for every input > 240 bytes; the Spec "
+                  "itself cannot be evaluated on 2 GiB). Lengths between ~20 KB and 2^31, and above 2^32+17, are tied only by the harness-only differential up to ~1 MiB. consts.go naming quirk (no functional effect): xsecret32_000/004 and "
                   "008/012 hold the other half of their 64-bit word (offset xor 4); stated as such in Consts_ok.",
     "harness": "c16",
     "gen": ["go run tools/gen_c16/main.go"],
     "theorems": [("C16.Props", [
         "C16_Consts_ok", "C16_impl_eq_spec64", "C16_impl_eq_spec128", "C16_hash_total", "C16_read_outside",
-        "C16_hashString", "C16_xxh64Avalanche_below_2_33"])],
+        "C16_hashString", "C16_xxh64Avalanche_below_2_33", "C16_long_low64"])],
     "trusted": [
         "tools/gen_c16 (go/types evaluation of consts.go -> coq/theories/C16/Consts.v); its output is checked by C16_Consts_ok against the Spec's own kSecret",
         "the hand-written Spec (XXH3 from the algorithm description), cross-checked on every run against internal/xxh3_raw inside the Coq case files (step 0 of every case)",
@@ -35,7 +41,7 @@ CFG = {
         "unsafe.Pointer arithmetic and hack.StringToBytes: a slice/string is its byte list, xinput+k is byte offset k",
         "CPU feature detection (sys/cpu) selecting the back end: the harness forces each supported back end instead",
     ],
-    "assumptions": ["slice lengths < 2^63 (index arithmetic exact)", "amd64 little-endian loads"],
+    "assumptions": ["Go int / uintptr arithmetic on lengths and offsets is modelled on unbounded Z (no wrap, no truncation); tied for lengths > 2 GiB by the huge-input stream only", "amd64 little-endian loads"],
     "widen_runs": 1,
     "widen_timeout": 1200,
 }
